@@ -57,3 +57,58 @@ func H_C10_date_kernel() {
 	vAssert("noerr", err == nil)
 	vCheckInstant("rt", t, got, sub)
 }
+
+type ZTimes struct {
+	A  int32
+	T  time.Time
+	Ts []time.Time
+}
+
+// H_C10_positions: instants in a struct field, in []time.Time and at top level; the zero time in a field.
+func H_C10_positions() {
+	vArith(1)
+	t, sub := vInstant()
+	switch vChoice("where", 4) {
+	case 0:
+		v := &ZTimes{A: 1, T: t}
+		tm, nm := vExtract(v)
+		bs, err := ToBytes(v, nm)
+		vAssert("encode-noerr", err == nil)
+		out, err := ToObject(bs, tm)
+		g, ok := out.(*ZTimes)
+		vAssert("decode", err == nil && ok && g.A == 1)
+		if t.IsZero() {
+			vAssert("zero-field", g.T.IsZero())
+		} else {
+			vCheckInstant("field", t, g.T, sub)
+		}
+	case 1:
+		vAssume(!t.IsZero())
+		v := &ZTimes{A: 1, Ts: []time.Time{t}}
+		tm, nm := vExtract(v)
+		bs, err := ToBytes(v, nm)
+		vAssert("encode-noerr", err == nil)
+		out, err := ToObject(bs, tm)
+		g, ok := out.(*ZTimes)
+		vAssert("decode", err == nil && ok && len(g.Ts) == 1)
+		vCheckInstant("elem", t, g.Ts[0], sub)
+	case 2:
+		vAssume(!t.IsZero())
+		bs, err := ToBytes(t, nil)
+		vAssert("encode-noerr", err == nil)
+		out, err := ToObject(bs, nil)
+		g, ok := out.(time.Time)
+		vAssert("decode", err == nil && ok)
+		vCheckInstant("top", t, g, sub)
+	case 3:
+		v := &ZTimes{A: 2}
+		tm, nm := vExtract(v)
+		bs, err := ToBytes(v, nm)
+		vAssert("encode-noerr", err == nil)
+		av, _, p := refParse(bs)
+		vAssert("zero-is-null-on-the-wire", p.err == "" && av.Kind == 'O' && len(av.Items) == 3 && av.Items[1].Kind == 'N')
+		out, err := ToObject(bs, tm)
+		g, ok := out.(*ZTimes)
+		vAssert("zero-field-back", err == nil && ok && g.T.IsZero() && g.A == 2)
+	}
+}
